@@ -261,7 +261,6 @@ impl Resolver {
             self.inv(), //# C07 lookup.pre.ids_in_range
         ensures
             innermost(self.stack@, name@) is Some ==> r == Ok::<Ref, Vec<Error>>(innermost(self.stack@, name@)->Some_0), //# C09,C02 lookup.innermost_local_binding_wins
-            innermost(self.stack@, name@) is None && self.global_of(span.file_id, name@) == Some(Name::Name(0)) ==> true,
             innermost(self.stack@, name@) is None ==> (match self.global_of(span.file_id, name@) {
                 Some(Name::Name(v)) => r == Ok::<Ref, Vec<Error>>(v),
                 _ => r is Err && r->Err_0.len() == 1 && r->Err_0[0].span() == span,
@@ -273,8 +272,8 @@ impl Resolver {
 //@   endghost
 //@   loop 1 binder it
             invariant
-                self.inv(), it.seq().len() == self.stack@.len(),
-                forall|j: int| 0 <= j < self.stack@.len() ==> *(#[trigger] it.seq()[j]) == self.stack@[self.stack@.len() - 1 - j],
+                self.inv(), it.seq().len() == self.stack@.len(), //# C07,C09 lookup.loop1.aux1
+                forall|j: int| 0 <= j < self.stack@.len() ==> *(#[trigger] it.seq()[j]) == self.stack@[self.stack@.len() - 1 - j], //# C07 lookup.loop1.aux2
                 forall|i: int| self.stack@.len() - it.index@ <= i < self.stack@.len() ==> (#[trigger] self.stack@[i]).0@ != name@, //# C09 lookup.loop.no_inner_match_skipped
 //@   endloop
 //@   ghost before
@@ -313,7 +312,7 @@ impl Resolver {
 
         ensures
             r == old(self).variables@.len(), //# C09 new_var.fresh_id
-            final(self).variables@.len() == old(self).variables@.len() + 1,
+            final(self).variables@.len() == old(self).variables@.len() + 1, //# C07 new_var.spec.aux1
             is_prefix(old(self).variables@, final(self).variables@), //# C09 new_var.appends_one
             final(self).variables@[r as int].kind == kind && final(self).variables@[r as int].id == r && !final(self).variables@[r as int].is_global, //# C04 new_var.records_kind
             final(self).stack == old(self).stack, //# C09 new_var.stack_untouched
@@ -331,8 +330,8 @@ impl Resolver {
             old(self).inv(), //# C07 push_var.pre.ids_in_range
 
         ensures
-            r == old(self).variables@.len(),
-            final(self).variables@.len() == old(self).variables@.len() + 1,
+            r == old(self).variables@.len(), //# C07 push_var.spec.aux1
+            final(self).variables@.len() == old(self).variables@.len() + 1, //# C07 push_var.spec.aux2
             final(self).variables@[r as int].kind == kind, //# C04 push_var.records_kind
             final(self).stack@ == old(self).stack@.push((ident.name, r)), //# C09 push_var.pushes_exactly_one_binding
             final(self).frame(old(self)), //# C09 push_var.frame_globals_untouched_variables_only_grow
@@ -342,7 +341,7 @@ impl Resolver {
 
 //@ fn sylt-compiler/src/name_resolution.rs assignable
 //@   in Resolver
-//@   props C09 C02 C07
+//@   props C09 C02 C07 C14
 //@   attr #[verifier::exec_allows_no_decreases_clause]
 //@   attr #[verifier::loop_isolation(false)]
 //@   ret r
@@ -371,22 +370,22 @@ impl Resolver {
         broadcast use group_up;
 //@   endghost
 //@   loop 1 binder it1
-                invariant self.stack@ == old(self).stack@, self.frame(old(self)),
-                    old(self).stack@.len() > 0 ==> forall|i: int| 0 <= i < args@.len() ==> e_nodecl(#[trigger] args@[i]),
-                    self.inv(), e_up(*function, self.variables@.len() as int), forall|i: int| 0 <= i < args@.len() ==> e_up(#[trigger] args@[i], self.variables@.len() as int),
-                    forall|i: int| 0 <= i < args@.len() ==> e_shape(#[trigger] args@[i]),
-                    it1.seq().len() == parser_args@.len(), args@.len() == it1.index@,
-                    forall|k: int| 0 <= k < parser_args@.len() ==> *(#[trigger] it1.seq()[k]) == parser_args@[k],
+                invariant self.stack@ == old(self).stack@, self.frame(old(self)), //# C09,C02 assignable.loop1.scope_stack_between_iterations
+                    old(self).stack@.len() > 0 ==> forall|i: int| 0 <= i < args@.len() ==> e_nodecl(#[trigger] args@[i]), //# C07 assignable.loop1.aux2
+                    self.inv(), e_up(*function, self.variables@.len() as int), forall|i: int| 0 <= i < args@.len() ==> e_up(#[trigger] args@[i], self.variables@.len() as int), //# C07,C09 assignable.loop1.aux3
+                    forall|i: int| 0 <= i < args@.len() ==> e_shape(#[trigger] args@[i]), //# C07 assignable.loop1.aux4
+                    it1.seq().len() == parser_args@.len(), args@.len() == it1.index@, //# C07 assignable.loop1.aux5
+                    forall|k: int| 0 <= k < parser_args@.len() ==> *(#[trigger] it1.seq()[k]) == parser_args@[k], //# C07 assignable.loop1.aux6
                     forall|k: int| 0 <= k < args@.len() ==> rel_e(#[trigger] parser_args@[k], args@[k]), //# C14 assignable.loop1.call_arguments_in_order
 //@   endloop
 //@   loop 2 binder it2
-                invariant self.stack@ == old(self).stack@, self.frame(old(self)),
-                    args@.len() == it2.index@ + 1, it2.seq().len() == assignable.kind->ArrowCall_2@.len(),
-                    old(self).stack@.len() > 0 ==> forall|i: int| 0 <= i < args@.len() ==> e_nodecl(#[trigger] args@[i]),
-                    self.inv(), e_up(*function, self.variables@.len() as int), forall|i: int| 0 <= i < args@.len() ==> e_up(#[trigger] args@[i], self.variables@.len() as int),
-                    forall|i: int| 0 <= i < args@.len() ==> e_shape(#[trigger] args@[i]),
-                    forall|k: int| 0 <= k < parser_args@.len() ==> *(#[trigger] it2.seq()[k]) == parser_args@[k],
-                    rel_e(xp, args@[0]),
+                invariant self.stack@ == old(self).stack@, self.frame(old(self)), //# C09,C02 assignable.loop2.scope_stack_between_iterations
+                    args@.len() == it2.index@ + 1, it2.seq().len() == assignable.kind->ArrowCall_2@.len(), //# C07 assignable.loop2.aux2
+                    old(self).stack@.len() > 0 ==> forall|i: int| 0 <= i < args@.len() ==> e_nodecl(#[trigger] args@[i]), //# C07 assignable.loop2.aux3
+                    self.inv(), e_up(*function, self.variables@.len() as int), forall|i: int| 0 <= i < args@.len() ==> e_up(#[trigger] args@[i], self.variables@.len() as int), //# C07,C09 assignable.loop2.aux4
+                    forall|i: int| 0 <= i < args@.len() ==> e_shape(#[trigger] args@[i]), //# C07 assignable.loop2.aux5
+                    forall|k: int| 0 <= k < parser_args@.len() ==> *(#[trigger] it2.seq()[k]) == parser_args@[k], //# C07 assignable.loop2.aux6
+                    rel_e(xp, args@[0]), //# C14 assignable.loop2.aux7
                     forall|k: int| 0 <= k < it2.index@ ==> rel_e(#[trigger] parser_args@[k], args@[k + 1]), //# C14 assignable.loop2.arrow_call_arguments_follow_the_receiver
 //@   endloop
 //@   ghost before
@@ -397,7 +396,7 @@ impl Resolver {
 
 //@ fn sylt-compiler/src/name_resolution.rs collection
 //@   in Resolver
-//@   props C09 C02 C07
+//@   props C09 C02 C07 C14
 //@   attr #[verifier::exec_allows_no_decreases_clause]
 //@   attr #[verifier::loop_isolation(false)]
 //@   ret r
@@ -409,7 +408,7 @@ impl Resolver {
 
         ensures
             r is Ok ==> final(self).stack@ == old(self).stack@, //# C09,C02 collection.scope_restored
-            is_prefix(old(self).stack@, final(self).stack@),
+            is_prefix(old(self).stack@, final(self).stack@), //# C09,C02 collection.never_pops_callers_bindings
             final(self).frame(old(self)), //# C09 collection.frame_globals_untouched_variables_only_grow
             r is Ok && old(self).stack@.len() > 0 ==> e_nodecl(r->Ok_0), //# C07 collection.no_nested_declaration
             final(self).inv(), //# C07 collection.keeps_ids_in_range
@@ -422,19 +421,19 @@ impl Resolver {
         broadcast use group_up;
 //@   endghost
 //@   loop 1 binder it
-            invariant self.stack@ == old(self).stack@, self.frame(old(self)),
-                old(self).stack@.len() > 0 ==> forall|i: int| 0 <= i < values@.len() ==> e_nodecl(#[trigger] values@[i]),
-                self.inv(), forall|i: int| 0 <= i < values@.len() ==> e_up(#[trigger] values@[i], self.variables@.len() as int),
-                forall|i: int| 0 <= i < values@.len() ==> e_shape(#[trigger] values@[i]),
-                it.seq().len() == expr@.len(), values@.len() == it.index@,
-                forall|k: int| 0 <= k < expr@.len() ==> *(#[trigger] it.seq()[k]) == expr@[k],
+            invariant self.stack@ == old(self).stack@, self.frame(old(self)), //# C09,C02 collection.loop1.scope_stack_between_iterations
+                old(self).stack@.len() > 0 ==> forall|i: int| 0 <= i < values@.len() ==> e_nodecl(#[trigger] values@[i]), //# C07 collection.loop1.aux2
+                self.inv(), forall|i: int| 0 <= i < values@.len() ==> e_up(#[trigger] values@[i], self.variables@.len() as int), //# C07,C09 collection.loop1.aux3
+                forall|i: int| 0 <= i < values@.len() ==> e_shape(#[trigger] values@[i]), //# C07 collection.loop1.aux4
+                it.seq().len() == expr@.len(), values@.len() == it.index@, //# C07 collection.loop1.aux5
+                forall|k: int| 0 <= k < expr@.len() ==> *(#[trigger] it.seq()[k]) == expr@[k], //# C07 collection.loop1.aux6
                 forall|k: int| 0 <= k < values@.len() ==> rel_e(#[trigger] expr@[k], values@[k]), //# C14 collection.loop.members_in_order
 //@   endloop
 //@ end
 
 //@ fn sylt-compiler/src/name_resolution.rs binop
 //@   in Resolver
-//@   props C09 C02 C07
+//@   props C09 C02 C07 C14
 //@   attr #[verifier::exec_allows_no_decreases_clause]
 //@   ret r
 //@   spec
@@ -445,7 +444,7 @@ impl Resolver {
 
         ensures
             r is Ok ==> final(self).stack@ == old(self).stack@, //# C09,C02 binop.scope_restored
-            is_prefix(old(self).stack@, final(self).stack@),
+            is_prefix(old(self).stack@, final(self).stack@), //# C09,C02 binop.never_pops_callers_bindings
             final(self).frame(old(self)), //# C09 binop.frame_globals_untouched_variables_only_grow
             r is Ok && old(self).stack@.len() > 0 ==> e_nodecl(r->Ok_0), //# C07 binop.no_nested_declaration
             final(self).inv(), //# C07 binop.keeps_ids_in_range
@@ -460,7 +459,7 @@ impl Resolver {
 
 //@ fn sylt-compiler/src/name_resolution.rs uniop
 //@   in Resolver
-//@   props C09 C02 C07
+//@   props C09 C02 C07 C14
 //@   attr #[verifier::exec_allows_no_decreases_clause]
 //@   ret r
 //@   spec
@@ -471,7 +470,7 @@ impl Resolver {
 
         ensures
             r is Ok ==> final(self).stack@ == old(self).stack@, //# C09,C02 uniop.scope_restored
-            is_prefix(old(self).stack@, final(self).stack@),
+            is_prefix(old(self).stack@, final(self).stack@), //# C09,C02 uniop.never_pops_callers_bindings
             final(self).frame(old(self)), //# C09 uniop.frame_globals_untouched_variables_only_grow
             r is Ok && old(self).stack@.len() > 0 ==> e_nodecl(r->Ok_0), //# C07 uniop.no_nested_declaration
             final(self).inv(), //# C07 uniop.keeps_ids_in_range
@@ -486,7 +485,7 @@ impl Resolver {
 
 //@ fn sylt-compiler/src/name_resolution.rs if_branch
 //@   in Resolver
-//@   props C09 C02 C07
+//@   props C09 C02 C07 C14
 //@   attr #[verifier::exec_allows_no_decreases_clause]
 //@   ret r
 //@   spec
@@ -497,7 +496,7 @@ impl Resolver {
 
         ensures
             r is Ok ==> final(self).stack@ == old(self).stack@, //# C09,C02 if_branch.scope_restored
-            is_prefix(old(self).stack@, final(self).stack@),
+            is_prefix(old(self).stack@, final(self).stack@), //# C09,C02 if_branch.never_pops_callers_bindings
             final(self).frame(old(self)), //# C09 if_branch.frame_globals_untouched_variables_only_grow
             r is Ok && old(self).stack@.len() > 0 ==> ib_nodecl(r->Ok_0), //# C07 if_branch.no_nested_declaration
             final(self).inv(), //# C07 if_branch.keeps_ids_in_range
@@ -535,7 +534,7 @@ impl Resolver {
 
         ensures
             r is Ok ==> final(self).stack@ == old(self).stack@, //# C09,C02 case_branch.scope_restored
-            is_prefix(old(self).stack@, final(self).stack@),
+            is_prefix(old(self).stack@, final(self).stack@), //# C09,C02 case_branch.never_pops_callers_bindings
             final(self).frame(old(self)), //# C09 case_branch.frame_globals_untouched_variables_only_grow
             r is Ok && old(self).stack@.len() > 0 ==> cb_nodecl(r->Ok_0), //# C07 case_branch.no_nested_declaration
             r is Ok && r->Ok_0.variable is Some ==> (r->Ok_0.variable->Some_0 as int) < final(self).variables@.len()
@@ -548,11 +547,11 @@ impl Resolver {
         broadcast use group_up;
 //@   endghost
 //@   loop 1
-            invariant is_prefix(old(self).stack@, self.stack@), self.frame(old(self)), self.stack@.len() > 0 || old(self).stack@.len() == 0,
-                old(self).stack@.len() > 0 ==> all_nodecl(body@),
-                *variable is Some ==> ((*variable)->Some_0 as int) < self.variables@.len() && self.variables@[(*variable)->Some_0 as int].kind is Const,
-                self.inv(), all_up(body@, self.variables@.len() as int),
-                forall|i: int| 0 <= i < body@.len() ==> s_shape(#[trigger] body@[i]),
+            invariant is_prefix(old(self).stack@, self.stack@), self.frame(old(self)), self.stack@.len() > 0 || old(self).stack@.len() == 0, //# C09,C02 case_branch.loop1.scope_stack_between_iterations
+                old(self).stack@.len() > 0 ==> all_nodecl(body@), //# C07 case_branch.loop1.aux2
+                *variable is Some ==> ((*variable)->Some_0 as int) < self.variables@.len() && self.variables@[(*variable)->Some_0 as int].kind is Const, //# C07 case_branch.loop1.aux3
+                self.inv(), all_up(body@, self.variables@.len() as int), //# C07,C09 case_branch.loop1.aux4
+                forall|i: int| 0 <= i < body@.len() ==> s_shape(#[trigger] body@[i]), //# C07 case_branch.loop1.aux5
 //@   endloop
 //@ end
 
@@ -580,16 +579,16 @@ impl Resolver {
         broadcast use group_up;
 //@   endghost
 //@   loop 1
-            invariant is_prefix(old(self).stack@, self.stack@), self.frame(old(self)),
-                old(self).stack@.len() > 0 ==> all_nodecl(stmts@),
-                self.inv(), all_up(stmts@, self.variables@.len() as int),
-                forall|i: int| 0 <= i < stmts@.len() ==> s_shape(#[trigger] stmts@[i]),
+            invariant is_prefix(old(self).stack@, self.stack@), self.frame(old(self)), //# C09,C02 block.loop1.scope_stack_between_iterations
+                old(self).stack@.len() > 0 ==> all_nodecl(stmts@), //# C07 block.loop1.aux2
+                self.inv(), all_up(stmts@, self.variables@.len() as int), //# C07,C09 block.loop1.aux3
+                forall|i: int| 0 <= i < stmts@.len() ==> s_shape(#[trigger] stmts@[i]), //# C07 block.loop1.aux4
 //@   endloop
 //@ end
 
 //@ fn sylt-compiler/src/name_resolution.rs expression
 //@   in Resolver
-//@   props C09 C02 C07 C04
+//@   props C09 C02 C07 C04 C14
 //@   attr #[verifier::exec_allows_no_decreases_clause]
 //@   attr #[verifier::loop_isolation(false)]
 //@   ret r
@@ -614,35 +613,35 @@ impl Resolver {
         broadcast use group_up;
 //@   endghost
 //@   loop 1 binder itb
-                    invariant self.stack@ == old(self).stack@, self.frame(old(self)),
-                        old(self).stack@.len() > 0 ==> forall|i: int| 0 <= i < branches@.len() ==> ib_nodecl(#[trigger] branches@[i]),
-                        self.inv(), forall|i: int| 0 <= i < branches@.len() ==> ib_up(#[trigger] branches@[i], self.variables@.len() as int),
-                        forall|i: int| 0 <= i < branches@.len() ==> ib_shape(#[trigger] branches@[i]),
-                        itb.seq().len() == parser_branches@.len(), branches@.len() == itb.index@,
-                        forall|k: int| 0 <= k < parser_branches@.len() ==> *(#[trigger] itb.seq()[k]) == parser_branches@[k],
+                    invariant self.stack@ == old(self).stack@, self.frame(old(self)), //# C09,C02 expression.loop1.scope_stack_between_iterations
+                        old(self).stack@.len() > 0 ==> forall|i: int| 0 <= i < branches@.len() ==> ib_nodecl(#[trigger] branches@[i]), //# C07 expression.loop1.aux2
+                        self.inv(), forall|i: int| 0 <= i < branches@.len() ==> ib_up(#[trigger] branches@[i], self.variables@.len() as int), //# C07,C09 expression.loop1.aux3
+                        forall|i: int| 0 <= i < branches@.len() ==> ib_shape(#[trigger] branches@[i]), //# C07 expression.loop1.aux4
+                        itb.seq().len() == parser_branches@.len(), branches@.len() == itb.index@, //# C07 expression.loop1.aux5
+                        forall|k: int| 0 <= k < parser_branches@.len() ==> *(#[trigger] itb.seq()[k]) == parser_branches@[k], //# C07 expression.loop1.aux6
                         forall|k: int| 0 <= k < branches@.len() ==> rel_ib(#[trigger] parser_branches@[k], branches@[k]), //# C14 expression.loop1.if_branches_in_order
 //@   endloop
 //@   loop 2 binder itc
-                    invariant self.stack@ == old(self).stack@, self.frame(old(self)),
-                        old(self).stack@.len() > 0 ==> forall|i: int| 0 <= i < branches@.len() ==> cb_nodecl(#[trigger] branches@[i]),
-                        self.inv(), e_up(*to_match, self.variables@.len() as int), forall|i: int| 0 <= i < branches@.len() ==> cb_up(#[trigger] branches@[i], self.variables@.len() as int),
-                        forall|i: int| 0 <= i < branches@.len() ==> cb_shape(#[trigger] branches@[i]),
-                        itc.seq().len() == parser_branches@.len(), branches@.len() == itc.index@,
+                    invariant self.stack@ == old(self).stack@, self.frame(old(self)), //# C09,C02 expression.loop2.scope_stack_between_iterations
+                        old(self).stack@.len() > 0 ==> forall|i: int| 0 <= i < branches@.len() ==> cb_nodecl(#[trigger] branches@[i]), //# C07 expression.loop2.aux2
+                        self.inv(), e_up(*to_match, self.variables@.len() as int), forall|i: int| 0 <= i < branches@.len() ==> cb_up(#[trigger] branches@[i], self.variables@.len() as int), //# C07,C09 expression.loop2.aux3
+                        forall|i: int| 0 <= i < branches@.len() ==> cb_shape(#[trigger] branches@[i]), //# C07 expression.loop2.aux4
+                        itc.seq().len() == parser_branches@.len(), branches@.len() == itc.index@, //# C07 expression.loop2.aux5
 //@   endloop
 //@   loop 3 binder itp
-                    invariant is_prefix(old(self).stack@, self.stack@), self.frame(old(self)), ss == old(self).stack@.len(),
+                    invariant is_prefix(old(self).stack@, self.stack@), self.frame(old(self)), ss == old(self).stack@.len(), //# C09,C02 expression.loop3.scope_stack_between_iterations
                         params_const(params@, self.variables@), //# C04 expression.loop.parameters_are_constants
-                        self.stack@.len() == ss + params@.len(),
-                        self.inv(),
-                        itp.seq().len() == parser_params@.len(), params@.len() == itp.index@,
+                        self.stack@.len() == ss + params@.len(), //# C07 expression.loop3.aux2
+                        self.inv(), //# C07,C09 expression.loop3.aux3
+                        itp.seq().len() == parser_params@.len(), params@.len() == itp.index@, //# C07 expression.loop3.aux4
 //@   endloop
 //@   loop 4 binder itf
-                    invariant self.stack@ == old(self).stack@, self.frame(old(self)),
-                        old(self).stack@.len() > 0 ==> fields_nodecl(fields@),
-                        self.inv(), (blob as int) < self.variables@.len(), (self_var as int) < self.variables@.len(), fields_up(fields@, self.variables@.len() as int),
-                        forall|i: int| 0 <= i < fields@.len() ==> e_shape((#[trigger] fields@[i]).1),
-                        itf.seq().len() == parser_fields@.len(), fields@.len() == itf.index@,
-                        forall|k: int| 0 <= k < parser_fields@.len() ==> *(#[trigger] itf.seq()[k]) == parser_fields@[k],
+                    invariant self.stack@ == old(self).stack@, self.frame(old(self)), //# C09,C02 expression.loop4.scope_stack_between_iterations
+                        old(self).stack@.len() > 0 ==> fields_nodecl(fields@), //# C07 expression.loop4.aux2
+                        self.inv(), (blob as int) < self.variables@.len(), (self_var as int) < self.variables@.len(), fields_up(fields@, self.variables@.len() as int), //# C07,C09 expression.loop4.aux3
+                        forall|i: int| 0 <= i < fields@.len() ==> e_shape((#[trigger] fields@[i]).1), //# C07 expression.loop4.aux4
+                        itf.seq().len() == parser_fields@.len(), fields@.len() == itf.index@, //# C07 expression.loop4.aux5
+                        forall|k: int| 0 <= k < parser_fields@.len() ==> *(#[trigger] itf.seq()[k]) == parser_fields@[k], //# C07 expression.loop4.aux6
                         forall|k: int| 0 <= k < fields@.len() ==> (#[trigger] fields@[k]).0 == parser_fields@[k].0 && rel_e(parser_fields@[k].1, fields@[k].1), //# C14 expression.loop4.blob_fields_in_order
 //@   endloop
 //@ end
